@@ -62,6 +62,7 @@ func main() {
 	write("MapRanges.lean", genMapRanges())
 	write("ReplacerTree.lean", genReplacerTree())
 	write("AdapterSources.lean", genAdapterSources())
+	write("WeakStringMarshal.lean", genWeakString())
 	write("RouteCompile.lean", genRouteCompile())
 	write("LogWriterCloses.lean", genLogWriterCloses())
 	write("UsagePoolClients.lean", genUsagePoolClients())
